@@ -248,15 +248,17 @@ func checkC18(c *Ctx) *report.Result {
 		ev := c.evalDecoder(write, 0xFF30, 0xFF3F, off, nil)
 		kind := map[bool]string{false: "read", true: "write"}[write]
 		var hits []elemAcc
+		var hitOff int64
 		for _, e := range ev.Elems {
-			if e.Idx != nil && e.Idx.HasBase && e.Idx.Base == ev.AddrSym {
+			if off, isAff := addrOffset(e.Idx, ev.AddrSym, ev.Lo, ev.Hi); isAff {
 				hits = append(hits, e)
+				hitOff = off
 			}
 		}
-		ok := len(hits) == 1 && hits[0].Idx.Off == -0xFF30 && hits[0].Idx.Lo >= 0 && hits[0].Idx.Hi < hits[0].Len
+		ok := len(hits) == 1 && hitOff == -0xFF30 && hits[0].Idx.Lo >= 0 && hits[0].Idx.Hi < hits[0].Len
 		detail := fmt.Sprintf("%d element accesses indexed by the address", len(hits))
 		if len(hits) == 1 {
-			detail = fmt.Sprintf("accesses %s[addr%+d], index range [%d,%d], length %d", hits[0].Array, hits[0].Idx.Off, hits[0].Idx.Lo, hits[0].Idx.Hi, hits[0].Len)
+			detail = fmt.Sprintf("accesses %s[addr%+d], index range [%d,%d], length %d", hits[0].Array, hitOff, hits[0].Idx.Lo, hits[0].Idx.Hi, hits[0].Len)
 			if arr == "" {
 				arr = hits[0].Array
 			}
